@@ -143,7 +143,7 @@ PROPS = {
     "C11": {
         "n_quick": 3000, "n_thorough": 80000,
         "technique": "Coq proof (stack-based execution = lexical flat expansion, by nested induction over programs) + correspondence by probing the real router",
-        "level_text": "proof: C11_flat (exec p = flatten p for every registration program), C11_group_scope_restored, C11_autohead_get; tied to the code by running random programs (nesting depth <= 3, group handlers, Combo, Routes with comma lists and extra method strings, Any, AutoHead toggles, handler slices with spare capacity) on a real Flame and probing every declared (method, path) plus prefix-less paths: handler-id trace and parameters must equal those of the model's registrations fed to the router model",
+        "level_text": "proof: C11_flat (exec p = flatten p for every registration program), C11_group_scope_restored, C11_autohead_get, C11_headers_routes_last, C11_checked_flat, C11_group_handlers_wrapped, C11_group_handlers_validated; tied to the code by running random programs (nesting depth <= 3, group handlers, Combo, Routes with comma lists and extra method strings, Any, AutoHead toggles, handler slices with spare capacity, .Headers on what a statement returns, a HandlerWrapper in a third of the programs, now and then a handler that is not a function) on a real Flame and probing every declared (method, path) plus prefix-less paths: handler-id trace and parameters must equal those of the model's registrations fed to the router model",
         "level_note": "trusts Coq kernel, extraction, glue; route paths of the programs are static or {placeholder} segments with unique route paths (no duplicate registrations, whose panic would leave the real group stack pushed); Go slice aliasing is outside the immutable model and is exercised on the implementation only",
         "rule": "random programs of 2-6 top-level statements, groups nested up to depth 3 with paths /gK, '', /{gidK}, /gK/x; every route path unique; 4% end with a Combo using GET twice. Probes: each declared route with 3-7 methods, a third also without its group prefix. Non-trivial: nested groups or a Combo; distinct by input.",
         "what": "per probe: not-found or (handler-id trace, params); whole program: ok or panic. Model: exec -> router model -> prediction; spec: same prediction from flatten.",
@@ -214,7 +214,7 @@ _MORE = {
     "C07": "Every fourth request is repeated under another spelling of the path and then without its headers; requests may have no header map at all (Header == nil, Host set).",
     "C08": "Also: method lists through Routes() (one unknown entry refuses), raw route texts (a generated route with one character inserted, judged by the parser model), and a same-instance stream (no rebuild after a rejection; judged: a registration that failed never answers a request; single-method registrations only, because a multi-method registration is the sequence of its single ones).",
     "C09": "Constraint names also under non-canonical spellings (x-k, X-k, USER-AGENT), two spellings of one header in one Headers() call included.",
-    "C11": "Also: Routes lists with empty or blank-separated entries (unknown method), group paths ending in a slash with relative and empty route paths inside.",
+    "C11": "Also: Routes lists with empty or blank-separated entries (unknown method), group paths ending in a slash with relative and empty route paths inside. A quarter of the route statements are followed by .Headers(\"X-Gate\", \"\") and every probe of such a program is sent with and without the header; with a HandlerWrapper installed the trace shows the wrapper's mark before every handler.",
     "C12": "Bind names with the punctuation the lexer allows (user-id, f.n, k~1); every third URL is built through the Context of a request after another build of the same route with other values.",
     "C14": "Also shapes outside the table ((bool, string), three values), a second request on the same instance in every third case, statuses 700 and 999, error texts with %.",
     "C15": "Handlers may Flush; the middleware may be installed through Handlers().",
